@@ -82,7 +82,7 @@ SplitOK == /\ Rec.merge_ok /\ Rec.sparse0 /\ Rec.sparse1 /\ Rec.qlen_ok /\ Rec.i
 CallOK == IF Rec.ev = "qr" THEN QrOK ELSE IF Rec.ev = "svd" THEN SvdOK ELSE IF Rec.ev = "rbi" THEN RbiOK
           ELSE IF Rec.ev = "split" THEN SplitOK ELSE FALSE
 
-TCall == /\ HasRec /\ CallOK /\ l' = l + 1 /\ tid' = tid
+TCall == /\ HasRec /\ (CallOK = TRUE) /\ l' = l + 1 /\ tid' = tid
 TNextTrace == /\ tid <= Len(Tr) /\ l > Len(Tr[tid])
               /\ TLCSet(1, TLCGet(1) \cup {tid})
               /\ tid' = tid + 1 /\ l' = 1
@@ -111,7 +111,7 @@ Diagnose ==
     ELSE IF Rec.ev = "split" THEN "split_mps_tensor: merge / sparsity / isometry / input flags"
     ELSE "unexpected event"
 
-TReject == /\ HasRec /\ ~CallOK
+TReject == /\ HasRec /\ (CallOK = FALSE)
            /\ PrintT(<<"REJECT", tid, l, Rec.ev, Diagnose>>)
            /\ tid' = tid + 1 /\ l' = 1
 TraceNext == TCall \/ TNextTrace \/ TReject
